@@ -42,8 +42,8 @@ REQUIRED_MONITORS = ['list_by_position', 'list_by_iteration', 'count_first_last'
 MIN_NONTRIVIAL = {'quick': 4000, 'thorough': 200000}
 TIMEOUT_S = {'quick': 300, 'thorough': 3000}
 NSHARDS = 16
-N_SEQ = {'quick': 5000, 'thorough': 300000}          # random sequences (all shards together)
-N_TRIPLES = {'quick': 1600, 'thorough': 48000}       # random triple lists (all shards together)
+N_SEQ = {'quick': 15000, 'thorough': 300000}          # random sequences (all shards together)
+N_TRIPLES = {'quick': 4800, 'thorough': 48000}       # random triple lists (all shards together)
 EXH_LEN = {'quick': 5, 'thorough': 7}                # every sequence of length <= L over {0,1,2,3}
 EXH_REC = {'quick': 4, 'thorough': 5}                # every record list of length <= M over gaps x frames
 EPS = 2.0 ** -52
